@@ -19,6 +19,8 @@ from lib.proggen import ProgGen
 from lib.props.c01 import adversarial, mutate, vm_stream
 
 STRUCT = [
+    # a value-if chain as a NON-last element of a list / argument list: the element after it is not another case of the chain
+    "[1 ? 10, 5]", "[0 ? 10, 5]", "func g2(a, b) { a + b }; g2(1 ? 10, 5)", "[1 ? 10, 0 ? 3, 5]", "[0 ? 10, 0 ? 3, 5]", "[2, 0 ? 1, 1 ? 7, 9]", "x = [0 ? 1, 2, 3]; x",
     # loops whose condition starts with a literal / keyword / parenthesis, with `continue` as the first or only statement of the body
     "func h(n) { while true { if n { return 1 }; continue } }; h(1)", "func h(n) { i = 0; while 3 > i { i = i + 1; continue }; i }; h(0)",
     "func h() { j = 0; while (j < 2) { j = j + 1; if j { continue } }; j }; h()", "k = 0; while 1 { k = k + 1; if k > 3 { break }; continue }; k",
